@@ -147,6 +147,9 @@ impl Run {
             }
         }
         if qos == 2 {
+            self.st.saw_qos2 = true;
+        }
+        if qos == 2 && !self.on(G11M) {
             self.m.order_armed = false;
         }
         self.serial += 1;
@@ -433,15 +436,27 @@ impl Run {
         };
         if !fin {
             // PUBREC: the publish is received, its release becomes pending
-            self.m.order_armed = false;
+            if !self.on(G11M) {
+                self.m.order_armed = false;
+            }
             cl!(self, G10, ret == Some(NPkt::PubRel(id)), "c10:pubrec_not_answered_with_pubrel", "PUBREC({id}) returned {ret:?}");
             self.m.live[ti].st = St::AwaitComp;
             return Ok(Some(label));
         }
         // final acknowledgement: the id is free again
         let first_unacked = self.m.live.iter().position(|e| e.st != St::Blocked);
-        if k != AK::Ack || first_unacked != Some(ti) {
+        if self.on(G11M) {
+            // mixed mode: PUBACKs must follow the send order of the QoS 1 publishes; QoS 2 flows
+            // may complete at any point
+            let first1 = self.m.live.iter().position(|e| e.st != St::Blocked && e.qos == 1);
+            if k == AK::Ack && first1 != Some(ti) {
+                self.m.order_armed = false;
+            }
+        } else if k != AK::Ack || first_unacked != Some(ti) {
             self.m.order_armed = false;
+        }
+        if k == AK::Ack {
+            self.m.last_acked1 = id;
         }
         self.m.live.remove(ti);
         self.m.last_done = id;
